@@ -8,5 +8,7 @@ Emit == (outcome = "pending" /\ Len(muts) > 0) =>
 CapRedCases == {[op |-> "capred", region |-> r, capmode |-> cap, shape |-> sh, accepts |-> Accepts(cap, sh)] :
                     r \in Regions, cap \in Modes, sh \in Shapes}
 EmitCapRed == (entry = "cert" /\ muts = <<>>) => \A c \in CapRedCases : (c.capmode \in CaptureModes(c.region)) => PrintT(<<"REPLAY", ToJson(c)>>)
+\* ... and one per shape of a certificate's resource extensions
+EmitShapes == (entry = "cert" /\ muts = <<>>) => \A sh \in CertShapes : PrintT(<<"REPLAY", ToJson([op |-> "certshape", shape |-> sh, converts |-> ConvertsTo(sh)])>>)
 view == <<entry, strict, muts, outcome = "pending">>
 =============================================================================
